@@ -519,6 +519,34 @@ def spec_opt(algo, sched, iters, freq, nn, two_d, explicit_dtype, forms=None):
     return s
 
 
+def spec_opt_preprocessed(spelling, algo, sched, iters, freq, ignored_duplicate=False):
+    """a configuration that only becomes the object list after main()'s PRE-PROCESSING: the optimised parameters are declared inside
+    a torchtree.Plate (template ids `x.*` or `x.${i}`, replicated over a range), next to comment keys (`_note`), an ignored
+    object and an ignored duplicate of a live parameter id. The checkpoint speaks about the FINAL ids (x.0, x.1, …)."""
+    star = spelling == "star"
+    tid = (lambda n: f"{n}.*") if star else (lambda n: f"{n}.${{i}}")
+    plate = {"type": "torchtree.Plate", "range": "0:3", "_note": "three independent normals",
+             "object": {"id": tid("normal"), "type": "Distribution", "distribution": "torch.distributions.Normal",
+                        "x": {"id": tid("x"), "type": "Parameter", "tensor": [3.0, -2.0], "_was": [0.0, 0.0]},
+                        "parameters": {"loc": {"id": tid("loc"), "type": "Parameter", "tensor": [0.5, 1.5]},
+                                       "scale": {"id": tid("scale"), "type": "Parameter", "tensor": [1.0, 2.0]}}}}
+    if not star:
+        plate["var"] = "i"
+    s = [
+        # switched off: must not be built, nor restored into (an ignored duplicate of a live id, or just an ignored object)
+        {"id": "x.0" if ignored_duplicate else "unused", "type": "Parameter", "tensor": [9.0, 9.0], "ignore": True},
+        param("w", [0.5, -0.25]),
+        {"id": "joint", "type": "JointDistributionModel", "_comment": "plate + one plain parameter",
+         "distributions": [plate, normal("dw", "w", -1.0, 0.5)]},
+        {"id": "opt", "type": "Optimizer", "algorithm": "torch.optim." + algo, "loss": "joint", "maximize": True,
+         "parameters": ["x.0", "x.1", "x.2", "w"], "iterations": iters, "checkpoint": "ck.json", "checkpoint_frequency": freq,
+         "checkpoint_all": True, "options": {"lr": 0.1}},
+    ]
+    if sched != "none":
+        s[3]["scheduler"] = dict({"id": "sch", "type": "Scheduler", "scheduler": "torch.optim.lr_scheduler." + sched}, **SCHEDULERS[sched])
+    return s
+
+
 OPERATORS = ("sliding", "scaler", "dirichlet", "gmrf", "hmc")
 ADAPTORS = {
     "none": [],
@@ -560,7 +588,7 @@ def adaptor(kind):
     return a
 
 
-def spec_mcmc(ops, adaptors, iters, freq, forms=None, pdtype=None, inline=None, hmc_options=None):
+def spec_mcmc(ops, adaptors, iters, freq, forms=None, pdtype=None, inline=None, hmc_options=None, hmc_target=None):
     from torchtree.evolution.tree_model import TimeTreeModel
 
     if forms:
@@ -623,6 +651,16 @@ def spec_mcmc(ops, adaptors, iters, freq, forms=None, pdtype=None, inline=None, 
                 "adaptors": [adaptor("mma" if a == "mma-dense" else a) for a in adaptors]},
     }
     mk["hmc"].update(hmc_options or {})
+    if hmc_target == "gumbel-tail":
+        # a target whose curvature depends strongly on the position (left tail of a Gumbel): whatever the operator derives from
+        # the current position when it is BUILT (initial step-size search, anything tied to it) differs between the start of
+        # the run and the position of a checkpoint
+        next(p_ for p_ in s if isinstance(p_, dict) and p_.get("id") == "h")["tensor"] = [-3.0, -3.5]
+        jd = next(p_ for p_ in s if isinstance(p_, dict) and p_.get("id") == "joint")["distributions"]
+        jd[[d_.get("id") if isinstance(d_, dict) else d_ for d_ in jd].index("dh")] = {
+            "id": "dh", "type": "Distribution", "distribution": "torch.distributions.Gumbel", "x": "h",
+            "parameters": {"loc": param("dh.loc", [0.0, 0.0]), "scale": param("dh.scale", [1.0, 1.0])}}
+        mk["hmc"]["integrator"]["step_size"] = 0.5
     s.append({"id": "mcmc", "type": "MCMC", "joint": "joint", "iterations": iters, "checkpoint": "ck.json",
               "checkpoint_frequency": freq, "every": 0, "operators": [mk[o] for o in ops],
               "loggers": [{"id": "log", "type": "Logger", "parameters": logged, "file_name": "log.csv"}]})
@@ -825,6 +863,10 @@ class Runner:
                                   f"restart from the checkpoint written after iteration {k} raises {err['type']}: {err['msg']}",
                                   dict(replay, error=err)))
                 continue
+            if dry.algo is None:
+                self.fail.append((f"restart-builds-nothing:{kind}", f"{_cfg_tag(cfg)}: restart from the checkpoint written after iteration {k}: main() returns "
+                                  "normally but has not built the algorithm (it logs a JSONParseError and goes on)", replay))
+                continue
             try:
                 after = dry.algo.state_dict() if kind != "HMC" else {}
             except Exception as e:
@@ -957,8 +999,12 @@ def _cfg_tag(cfg):
     if "ops" not in cfg and "algo" not in cfg:
         return "HMC"
     tag = cfg.get("algo") or ("+".join(cfg.get("ops", [])) + "/" + cfg.get("adaptors", ""))
+    if cfg.get("preprocessed"):
+        tag += f"[parameters inside a Plate ({'x.*' if cfg['preprocessed'] == 'star' else 'x.${i}'}), comments, ignored objects]"
     if cfg.get("forms"):
         tag += f"[declared:{cfg['forms']}]"
+    if cfg.get("hmc_target"):
+        tag += f"[{cfg['hmc_target']}]"
     if cfg.get("inline"):
         tag += f"[y defined inline inside a parameter that is {'not ' if cfg['inline'] == 'unsaved' else ''}in the checkpoint]"
     if cfg.get("pdtype"):
@@ -1291,6 +1337,10 @@ def opt_configs(ck: Check):
     for a, pd, dd in (("Adam", "float32", "float64"), ("SGD", "float64", "float32"), ("RMSprop", "float32", "float64"), ("Adagrad", "float64", "float32")):
         cfgs.append({"algo": a, "sched": rng.choice(["none", "StepLR", "ExponentialLR"]), "iters": 6, "freq": 2, "dtype": dd, "nn": rng.random() < 0.5,
                      "two_d": False, "explicit_dtype": "torch." + pd, "pdtype": "torch." + pd, "twice": True})
+    # configurations that need main()'s pre-processing (plates in both spellings, comment keys, ignored objects)
+    for sp_, a_, sc_ in (("star", "Adam", "StepLR"), ("var", "SGD", "none"), ("star", "Adagrad", "ExponentialLR")):
+        cfgs.append({"algo": a_, "sched": sc_, "iters": 6, "freq": 2, "dtype": rng.choice(["float32", "float64"]), "nn": False, "two_d": False,
+                     "explicit_dtype": None, "preprocessed": sp_, "ignored_duplicate": a_ == "Adagrad", "twice": True})
     # parameters declared through full / zeros_like / ones / full_like (inline shape)
     for f_ in ("A", "B", "C"):
         cfgs.append({"algo": rng.choice(["Adam", "SGD", "Adagrad"]), "sched": "none", "iters": 6, "freq": 2, "dtype": rng.choice(["float32", "float64"]),
@@ -1329,6 +1379,9 @@ def phase_configs():
     add("mma-window[end=8]+ass[end=5]", ["mma-window@end=8,update_frequency=2", "ass@end=5"], around(5, 8, far=14), iters=16)
     add("dass[end=6],find_reasonable_step_size", ["dass@end=6"], around(1, 6, far=14), iters=16, hmc_options={"find_reasonable_step_size": True})
     add("dass[end=6],disable_adaptation", ["dass@end=6"], around(6, far=12), iters=14, hmc_options={"disable_adaptation": True})
+    # what the operator derives when it is built must not become unsaved run state: position-dependent target, every adaptor
+    for lab_, sp_ in (("dass", ["dass"]), ("ass", ["ass"]), ("mma+dass", ["mma@update_frequency=2", "dass"])):
+        add(f"{lab_},find_reasonable_step_size,gumbel-tail", sp_, [1, 5, 12, 20], hmc_options={"find_reasonable_step_size": True}, hmc_target="gumbel-tail")
     # a second operator: the adaptor's call counter is no longer the iteration number, so every point
     add("dass[end=6] next to a sliding window", ["dass@end=6"], list(range(1, 25, 2)) + [24], ops=("sliding", "hmc"))
     add("mma[end=8]+ass[start=3,end=6] next to a scaler", ["mma@end=8,update_frequency=2", "ass@start=3,end=6"], list(range(2, 25, 2)), ops=("scaler", "hmc"))
@@ -1407,13 +1460,15 @@ def inline_in_saved_parameter(runner: Runner, cfg, fn, args):
 def run_cfg(runner: Runner, kind, cfg, points):
     if kind == "Optimizer":
         fn = lambda: spec_opt(cfg["algo"], cfg["sched"], cfg["iters"], cfg["freq"], cfg["nn"], cfg["two_d"], cfg["explicit_dtype"], cfg.get("forms"))  # noqa: E731
+        if cfg.get("preprocessed"):
+            fn = lambda: spec_opt_preprocessed(cfg["preprocessed"], cfg["algo"], cfg["sched"], cfg["iters"], cfg["freq"], cfg.get("ignored_duplicate", False))  # noqa: E731
         args = ["--dtype", cfg["dtype"], "-s", "1"]
     elif kind == "HMC":
         fn = lambda: spec_hmc(cfg["iters"], cfg["freq"], cfg.get("dense", False))  # noqa: E731
         args = ["--dtype", cfg["dtype"], "-s", str(cfg["seed"])]
     else:
         fn = lambda: spec_mcmc(cfg["ops"], cfg.get("adaptor_specs") or ADAPTORS[cfg["adaptors"]], cfg["iters"], cfg["freq"], cfg.get("forms"),  # noqa: E731
-                               cfg.get("pdtype"), cfg.get("inline"), cfg.get("hmc_options"))
+                               cfg.get("pdtype"), cfg.get("inline"), cfg.get("hmc_options"), cfg.get("hmc_target"))
         args = ["--dtype", cfg["dtype"], "-s", str(cfg["seed"])]
     if cfg.get("inline") == "saved":
         inline_in_saved_parameter(runner, cfg, fn, args)
